@@ -1,7 +1,13 @@
 (* C47 wire functions.
    input : [tunnel ...]  (1..4 tunnels, run concurrently and independently through one real BFE server)
      tunnel = [kind cearly bearly [event ...] closer mode]
-       kind    0 = WebSocket upgrade over the HTTP listener, 1 = TLS "stream" proxy over the HTTPS listener
+       kind    0 = WebSocket upgrade over the HTTP listener, 1 = TLS "stream" proxy over the HTTPS listener,
+               2 = TLS "stream" proxy on a server whose TLS rules enable DynamicRecord (record size grows after 1 MB
+                   sent, shrinks after 1 s of silence); BLOCK-SCALED: every list element of cearly / bearly / event bytes
+                   stands for a 4096-byte block filled with that value; the harness expands on sending and collapses
+                   what each end received (a block that is not uniform, or a partial block, collapses to 255), so that
+                   megabytes go through the tunnel while the wire values stay small; the model is the same
+               3 = WebSocket upgrade over the HTTPS listener (wss) of that DynamicRecord server
        cearly  bytes the client sends in the SAME write as its upgrade request (kind 1: first application data, written
                immediately after the TLS handshake)
        bearly  bytes the backend sends in the SAME write as its 101 response (kind 1: written as soon as the backend accepts)
@@ -43,7 +49,7 @@ Definition decode_tunnel (v : val) : option tunnel :=
   | VL [VZ kind; VB ce; VB be; VL evs; VZ closer; VZ mode] =>
     match all_some (map decode_event evs) with
     | Some es =>
-      if ((kind =? 0) || (kind =? 1)) && bytes_ok ce && bytes_ok be && ((mode =? 0) || (mode =? 1)) && (length es <=? 12)%nat then
+      if ((0 <=? kind) && (kind <=? 3)) && bytes_ok ce && bytes_ok be && ((mode =? 0) || (mode =? 1)) && (length es <=? 12)%nat then
         match closer with
         | 0 => Some (mkTunnel kind ce be es CB)
         | 1 => Some (mkTunnel kind ce be es BC)
